@@ -136,6 +136,16 @@ def step (st : St) (line : String) : St × String :=
         | some k => run1 st n e (.bindDrop k)
         | none => (st, "bad-op")
       | "dropmux", [] => run1 st n e .dropMux
+      | "cancelopen", [req] =>
+        match req.toNat? with
+        | some req => run1 st n e (.cancelOpen req)
+        | none => (st, "bad-op")
+      | "sinkblock", [] => run1 st n e (.sinkRoom (some 0))
+      | "sinkunblock", [] => run1 st n e (.sinkRoom none)
+      | "sinkgrant", [k] =>
+        match k.toNat? with
+        | some k => run1 st n e (.sinkRoom (some k))
+        | none => (st, "bad-op")
       | "deliver", w =>
         match parseIn w with
         | some w => run1 st n e (.deliver w)
